@@ -1,4 +1,4 @@
-import J5V.Schema.ReaderProofs
+import J5V.Schema.PropSet
 import J5V.Generated.SchemaFacts
 /-!
 # C18 — schema reflection over arbitrary linked proto3 descriptor sets is total and self-consistent
@@ -101,6 +101,108 @@ theorem C18_cache_total_partial (ds : DescSet) (hl : linked ds = true)
 /-- the hypothesis excludes exactly the witness's class -/
 example : enumNamesFree collisionWitness = false := by decide
 
+/-! ### proto paths resolve to fields of the matching kind; names are unique
+
+`RegDescribes ds reg`: every object / oneof schema registered under (p, k) was built from a
+message of the set whose schema name (or whose oneof's) is (p, k); each of its properties either
+has the number of a field of that message as its path, with a schema that `describes` the field
+(cardinality: array ↔ repeated, map ↔ map; element: J5 scalar ↔ proto kind by `scalarFits`,
+well-known scalar ↔ its message, enum / object / oneof ↔ the referenced descriptor's own schema
+name, oneof-ness as `isOneofWrapper` says), or is the wrapper of an exposed oneof of the message;
+and the JSON names of its properties are pairwise distinct.
+
+The full statement is false of the code as it is: `google.protobuf.Struct` is reflected as
+`MapField{AnyField}` over a message-kind field (open finding `struct-as-map:*`). -/
+
+def C18_paths_resolve_full : Prop :=
+  ∀ ds : DescSet, ∀ reg, schemaSetFromFiles ds = .ok reg → RegDescribes ds reg
+
+/-- `message M { google.protobuf.Struct s = 1; }` -/
+def structWitness : DescSet :=
+  let f : FieldD := ⟨"s", "s", 1, .message, .single, -1,
+    .msg "google.protobuf.Struct" "google.protobuf" "Struct", false, none, none, none, none, none, none⟩
+  let m : Msg := ⟨"wt.v1.M", "wt.v1", "M", "M", none, none, "nofield", none, [], [f]⟩
+  ⟨["wt.v1.M"], [], ["wt.v1.M"], [m], []⟩
+
+theorem structWitness_reflects :
+    schemaSetFromFiles structWitness =
+      .ok [⟨"wt.v1", "M", some (.object "wt.v1" "M" none [] [⟨"s", false, false, [1], .map .any⟩]),
+        "wt.v1.M"⟩] :=
+  schemaSetFromFilesN_sound structWitness 10 _ (by decide)
+
+theorem C18_paths_resolve_counterexample : ¬ C18_paths_resolve_full := by
+  intro h
+  have hd := h structWitness _ structWitness_reflects
+  have := hd _ (List.mem_singleton.mpr rfl) _ rfl
+  obtain ⟨⟨m, hm, _, _, hp⟩, _⟩ := this
+  simp only [structWitness, List.mem_singleton] at hm
+  subst hm
+  rcases hp _ (List.mem_singleton.mpr rfl) with ⟨f, hf, _, hdesc⟩ | ⟨hpath, _⟩
+  · simp only [List.mem_singleton] at hf
+    subst hf
+    simp [describes, describesItem] at hdesc
+  · cases hpath
+
+/-- **Paths resolve, kinds match, names are unique** (partial: no `google.protobuf.Struct`
+field). For every descriptor set, if reflection succeeds then every schema of the set points into
+the message it was built from, with matching cardinality and kind, and distinct property names. -/
+theorem C18_paths_resolve_partial (ds : DescSet) (hsf : structFreeSet ds = true) (reg : Reg)
+    (h : schemaSetFromFiles ds = .ok reg) : RegDescribes ds reg :=
+  schemaSetFromFiles_describes ds hsf reg h
+
+/-- the per-field core of it: the property built for a field has that field's number as path,
+its JSON name, and a schema describing it — whatever annotations the field carries -/
+theorem C18_property_describes_field (ds : DescSet) (reg : Reg) (f : FieldD) (prop : RProp)
+    (b : Built) (h : buildProperty ds reg f = .ok (prop, b)) (hns : structFree f = true) :
+    prop.path = [f.number] ∧ prop.json = f.jsonName ∧ describes ds f prop.schema = true :=
+  buildProperty_describes ds reg f prop b h hns
+
+example : structFreeSet structWitness = false := by decide
+
+/-! ### the property-set layer of the codec accepts what the reader produced
+
+`lib/j5reflect` builds, for a message, the client properties (flattened fields expanded), walks
+every proto path (`newPropSet`) and checks every field schema against the proto kind before it
+touches a value (`buildProperty`, `newMessageFieldFactory`, `newFieldFactory`). Values themselves
+(encode / decode of a populated message) are the codec cluster's model (C01, C06); what is proved
+here is that none of these checks can fail or panic on a schema that describes its field. -/
+
+/-- **Flattening terminates.** `ClientProperties` descends into a flattened object only when it
+is not already on the flattening stack, and each descent strictly decreases the number of
+registered schema names not on the stack (the repair 595283b; without the guard a message that
+flattens itself recursed until the stack overflowed). `clientProps` is defined by well-founded
+recursion on exactly this measure. -/
+theorem C18_flatten_terminates (reg : Reg) (fl : List Ref) (r : Ref) (e : REntry)
+    (hf : reg.find r.pkg r.schema = some e) (hn : onStack fl r = false) :
+    unflattened reg (fl ++ [r]) < unflattened reg fl :=
+  unflattened_lt reg fl r e hf hn
+
+/-- `message M { M child = 1 [flatten]; string name = 2; }`: the self-flattening field stays a
+nested object -/
+example :
+    let child : RProp := ⟨"child", false, false, [1], .object ⟨"wt.v1", "M"⟩ true⟩
+    let name : RProp := ⟨"name", false, false, [2], .scalar .string 0 9 ""⟩
+    clientProperties [⟨"wt.v1", "M", some (.object "wt.v1" "M" none [] [child, name]), "wt.v1.M"⟩]
+      ⟨"wt.v1", "M"⟩ = .ok [child, name] := by
+  simp [clientProperties, objectProps, Reg.find, Outcome.bind, clientProps, onStack, Outcome.map]
+
+/-- **The codec's checks pass** (partial: for properties that point at a field; flattened paths
+are concatenations of such steps). If a property of a schema built from message `m` describes
+field `f` of `m`, then `newPropSet` resolves its path to a field with that number and every
+kind check of the field factories succeeds — no error, no panic. Together with
+`C18_paths_resolve_partial` this covers every non-flattened property of every reflected schema. -/
+theorem C18_codec_ok_partial (ds : DescSet) (m : Msg) (f : FieldD) (hf : f ∈ m.fields) (s : RField)
+    (h : describes ds f s = true) :
+    (∃ g, resolvePath ds m [f.number] = .ok (some g) ∧ g ∈ m.fields ∧ g.number = f.number) ∧
+    reflectField f s = .ok () :=
+  ⟨resolvePath_single ds m f hf, reflectField_ok ds f s h⟩
+
+/-- the recorded exception on this side: a `repeated google.protobuf.Struct` reaches the message
+factory with a map schema and panics (open finding `struct-as-map:panic`) -/
+example : reflectField ⟨"r", "r", 2, .message, .list, -1,
+      .msg "google.protobuf.Struct" "google.protobuf" "Struct", false, none, none, none, none, none, none⟩
+    (.array (.map .any)) = .panic "invalid schema for message field" := by decide
+
 /-! ## Non-vacuity -/
 
 /-- `message M { M child = 1; string name = 2; }` — self-recursive -/
@@ -112,7 +214,8 @@ def selfRecursive : DescSet :=
   let m : Msg := ⟨"p.v1.M", "p.v1", "M", "M", none, none, "nofield", none, [], [f1, f2]⟩
   ⟨["p.v1.M"], [], ["p.v1.M"], [m], []⟩
 
-example : linked selfRecursive = true ∧ enumNamesFree selfRecursive = true := by decide
+example : linked selfRecursive = true ∧ enumNamesFree selfRecursive = true ∧
+    structFreeSet selfRecursive = true := by decide
 
 /-- … and it reflects: one object `M` with an object property pointing back at `M` -/
 example : schemaSetFromFiles selfRecursive =
